@@ -80,6 +80,7 @@ type Engine struct {
 	MaxPaths    int
 	MaxInstrs   int64
 	MaxDecisions int
+	decided      map[string]bool
 	TimeoutMs   int
 	instrs      int64
 	defs        map[string]string
@@ -251,6 +252,7 @@ func (e *Engine) resetPath() {
 	e.symKeys = map[int]symstr{}
 	e.captured = nil
 	e.snaps = map[*value]bool{}
+	e.decided = map[string]bool{}
 	if e.depth > 0 {
 		e.send(fmt.Sprintf("(pop %d)", e.depth))
 	}
@@ -409,6 +411,12 @@ func (e *Engine) Decide(c symv) bool {
 		return false
 	}
 	c = e.name(c)
+	// a condition already decided on this path (the same term is tested again, e.g. a symbolic byte compared by
+	// several regular expressions) keeps its value: no query, no new decision.  Replay is unaffected because the
+	// cache is rebuilt by the same deterministic sequence of decisions.
+	if d, ok := e.decided[c.t]; ok {
+		return d
+	}
 	k := len(e.trace)
 	if k >= e.MaxDecisions {
 		panic(pathUnsupported{fmt.Sprintf("more than %d decisions on one path", e.MaxDecisions)})
@@ -422,6 +430,7 @@ func (e *Engine) Decide(c symv) bool {
 		} else {
 			e.push("(not " + c.t + ")")
 		}
+		e.decided[c.t] = d
 		return d
 	}
 	rt := e.checkSat(c.t)
@@ -437,14 +446,17 @@ func (e *Engine) Decide(c symv) bool {
 		e.work = append(e.work, alt)
 		e.trace = append(e.trace, true)
 		e.push(c.t)
+		e.decided[c.t] = true
 		return true
 	case rt == "sat":
 		e.trace = append(e.trace, true)
 		e.push(c.t)
+		e.decided[c.t] = true
 		return true
 	case rf == "sat":
 		e.trace = append(e.trace, false)
 		e.push("(not " + c.t + ")")
+		e.decided[c.t] = false
 		return false
 	}
 	panic(pathAbort{"infeasible"})
